@@ -83,6 +83,9 @@ const BASE: &[(&str, &str)] = &[
     ("bltu t0, t1, L", "Branch Bltu rs1=5 rs2=6 L"), ("bgeu t0, t1, L", "Branch Bgeu rs1=5 rs2=6 L"),
     ("jal L", "JumpLink Jal rd=1 L"), ("jal t0, L", "JumpLink Jal rd=5 L"),
     ("jalr t0, t1, 4", "JumpLinkR Jalr rd=5 rs1=6 imm=4"), ("jalr t0, 4(t1)", "JumpLinkR Jalr rd=5 rs1=6 imm=4"),
+    ("jalr t0, (t1)", "JumpLinkR Jalr rd=5 rs1=6 imm=0"), ("jalr t0, 8", "JumpLinkR Jalr rd=1 rs1=5 imm=8"), ("jalr t0, -8(sp)", "JumpLinkR Jalr rd=5 rs1=2 imm=-8"),
+    ("lw a0, 12", "Load Lw rd=10 rs1=0 imm=12"), ("sw a1, 12", "Store Sw rs1=0 rs2=11 imm=12"), ("sh a1, -2(s1)", "Store Sh rs1=9 rs2=11 imm=-2"),
+    ("lhu t3, 0(t4)", "Load Lhu rd=28 rs1=29 imm=0"), ("sltiu a0, a1, -1", "IArith Sltiu rd=10 rs1=11 imm=-1"), ("srai a0, a1, 31", "IArith Srai rd=10 rs1=11 imm=31"),
     ("csrrw t0, 64, t1", "Csr Csrrw rd=5 csr=64 rs1=6"), ("csrrs t0, 65, t1", "Csr Csrrs rd=5 csr=65 rs1=6"),
     ("csrrc t0, 66, t1", "Csr Csrrc rd=5 csr=66 rs1=6"), ("csrrwi t0, 64, 3", "CsrI Csrrwi rd=5 csr=64 imm=3"),
     ("csrrsi t0, 64, 3", "CsrI Csrrsi rd=5 csr=64 imm=3"), ("csrrci t0, 64, 3", "CsrI Csrrci rd=5 csr=64 imm=3"),
@@ -103,6 +106,22 @@ const PSEUDO: &[(&str, &str)] = &[
     ("csrwi 64, 3", "csrrwi x0, 64, 3"), ("csrsi 64, 3", "csrrsi x0, 64, 3"), ("csrci 64, 3", "csrrci x0, 64, 3"), ("jalr t0", "jalr ra, t0, 0"),
 ];
 
+/// statements that expand to two instructions (RARS): statement -> the two nodes
+const TWO: &[(&str, &str, &str)] = &[
+    ("lw a0, L", "LoadAddr rd=10 L", "Load Lw rd=10 rs1=10 imm=0"),
+    ("lbu t1, L", "LoadAddr rd=6 L", "Load Lbu rd=6 rs1=6 imm=0"),
+    ("sw a0, L, t0", "LoadAddr rd=5 L", "Store Sw rs1=5 rs2=10 imm=0"),
+    ("sb a1, L, t2", "LoadAddr rd=7 L", "Store Sb rs1=7 rs2=11 imm=0"),
+    ("sw a0, 64, t0", "IArith Addi rd=5 rs1=0 imm=64", "Store Sw rs1=5 rs2=10 imm=0"),
+];
+
+fn parse2(st: &str) -> Result<Vec<ParserNode>, String> {
+    let text = format!("{st}\nL:\n");
+    let (nodes, errors) = catch_unwind(AssertUnwindSafe(|| RVStringParser::parse_from_text(&text))).map_err(|_| format!("parser panicked on {st:?}"))?;
+    if !errors.is_empty() { return Err(format!("{st:?} is rejected ({} parse error(s))", errors.len())); }
+    Ok(nodes.into_iter().filter(|n| n.is_instruction()).collect())
+}
+
 /// statements the manual does not allow: they must be rejected with a parse error, never decoded
 const REJECT: &[&str] = &["lui t0, 0x100000", "lui t0, -1", "lui t0, 1048576", "addi t0, t1", "add t0, t1, 5", "lw t0, 4(5)", "beq t0, t1", "jal 5",
                           "li t0, 4294967296", "li t0, -2147483649", "li t0, 0x1FFFFFFFF", "addi t0, t0, 0b2", "li t0, 12a"];
@@ -116,6 +135,16 @@ pub fn search(_v: &serde_json::Value) -> i32 {
     let mut check_base = |st: String, want: String| -> Option<String> {
         match parse1(&st) { Err(e) => Some(e), Ok(node) => { let got = describe(&node); if got == want { None } else { Some(format!("{st:?} is decoded as `{got}`, the manual assigns `{want}`")) } } }
     };
+    for (st, w1, w2) in TWO {
+        n += 1;
+        match parse2(st) {
+            Err(e) => { println!("witness: {e}"); return 1; }
+            Ok(v) => {
+                let got: Vec<String> = v.iter().map(describe).collect();
+                if got != vec![w1.to_string(), w2.to_string()] { println!("witness: {st:?} is decoded as {got:?}, the manual's expansion is [`{w1}`, `{w2}`]"); return 1; }
+            }
+        }
+    }
     for (st, want) in BASE { n += 1; if let Some(w) = check_base(st.to_string(), want.to_string()) { println!("witness: {w}"); return 1; } }
     for m in RTYPE {
         n += 1;
@@ -155,4 +184,12 @@ pub fn finding(which: &str) -> i32 {
         },
         _ => 2,
     }
+}
+
+/// the statement texts of all tables (used by the line-accounting search)
+pub fn statement_forms() -> Vec<String> {
+    let mut v: Vec<String> = Vec::new();
+    for (st, _) in BASE { v.push(st.to_string()); }
+    for (st, _, _) in TWO { v.push(st.to_string()); }
+    v
 }
